@@ -181,6 +181,13 @@ class HttpProtocolHandler(BaseTcpServerHandler[HttpClientConnection]):
             if self.request.state != httpParserStates.COMPLETE:
                 if self._parse_first_request(data):
                     return True
+                # Bytes received after the end of the 1st request (pipelined
+                # requests, tunnel payload) belong to the plugin serving
+                # the connection, just like any later data.
+                if self.request.is_complete and self.plugin and self.request.buffer:
+                    remainder = self.request.buffer
+                    self.request.buffer = None
+                    self.plugin.on_client_data(remainder)
             # HttpProtocolHandlerPlugin.on_client_data
             # Can raise HttpProtocolException to tear down the connection
             elif self.plugin:
